@@ -8,8 +8,16 @@ def queries():
             qs.append(Query('splay_%s_h%d' % ('multi' if dup else 'set', h), 'C17_splay.cpp', 'h_splay',
                             'SplayTree<uint8_t, less, Duplicates=%s>: %d symbolic operations (insert, erase, exists, find, clear) over keys 0..3, incl. empty tree and reuse after clear(); after each step size, in-order sequence, check(); leak/double-free checks' % ('true' if dup else 'false', h),
                             defs=['DUP=%d' % dup, 'H=%d' % h], cbmc=['--memory-leak-check'], tiers=('quick', 'thorough') if quick else ('thorough',), timeout=900 if quick else 3600, unwind=4, weight=h))
+    for mapmode in (0, 1):
+        for h in (2, 3, 4, 5):
+            quick = h <= 2
+            qs.append(Query('lru_%s_h%d' % ('map' if mapmode else 'set', h), 'C17_lru.cpp', 'h_lru',
+                            'LruCache%s<uint8_t%s>: %d symbolic operations (put, touch, touch_if_exists, erase, erase_if_exists, pop, clear%s) over 3 keys vs a reference recency list; exceptions exactly for absent keys' % ('Map' if mapmode else 'Set', ', uint8_t' if mapmode else '', h, ', get' if mapmode else ''),
+                            defs=['MAPMODE=%d' % mapmode, 'H=%d' % h], extra_c=['C17_stubs.c'], ll2c=['--alloc-cap', '128'], cbmc=['--memory-leak-check'], validate=0,
+                            tiers=('quick', 'thorough') if quick else ('thorough',), timeout=3600 if quick else 14400, unwind=4, max_unwind=64, weight=h * 2))
     return qs
 
-ASSUMPTIONS = ['comparator std::less on 8-bit keys from a universe of 4 keys, at most 6 stored elements']
+ASSUMPTIONS = ['LRU queries: the libstdc++.so parts of std::list (_M_hook/_M_unhook/_M_transfer) and std::unordered_map (_Prime_rehash_policy) are C models written after the libstdc++ sources (harness/C17_stubs.c); max_load_factor 1.0; the generated C cannot be linked against the native library parts, so translator validation is off for these queries',
+               'comparator std::less on 8-bit keys from a universe of 4 keys, at most 6 stored elements']
 OUTSIDE = ['histories longer than 6 operations, key universes larger than 4', 'LRU caches with more than the stated bound']
 EXPLANATION = 'symbolic operation histories against reference multiset / recency-list models; CBMC heap checks for exact node release'
